@@ -14,7 +14,8 @@
 (*  report = [c, h,  opt  : [idx, feas, f, c, g], optb  (FALSE: it raised),*)
 (*            res  : [built, idx, oi, feas, f, c, g],                      *)
 (*            last : [idx, feas, f, c, g],        lastb,                   *)
-(*            fp   : <<indices of the feasible points>>, fpb]              *)
+(*            fp   : <<indices of the feasible points>>, fpb,              *)
+(*            vm   : <<[feas, v]>> check_design_point_is_feasible per point, vmb] *)
 (***************************************************************************)
 EXTENDS OptHistory
 
@@ -28,6 +29,7 @@ RInit == /\ tid \in 1..Len(Reports)
 RNext == UNCHANGED <<inst, tid>>
 
 OptV  == IF R.optb THEN Verdict(C, H, R.opt) ELSE "Raised"
+MeasV == IF R.vmb THEN MeasureVerdict(C, H, R.vm) ELSE "Raised"
 Judge == PrintT(ToJson(<<"V", tid,
                          HistoryClass(C, H),
                          OptV,
@@ -35,7 +37,9 @@ Judge == PrintT(ToJson(<<"V", tid,
                          ResultVerdict(C, H, R.res),
                          IF R.res.built THEN Why(C, H, AsSolution(C, R.res), Verdict(C, H, AsSolution(C, R.res))) ELSE "-",
                          IF R.lastb THEN LastVerdict(C, H, R.last) ELSE "Raised",
-                         IF R.fpb THEN FeasiblePointsVerdict(C, H, R.fp) ELSE "Raised">>))
+                         IF R.fpb THEN FeasiblePointsVerdict(C, H, R.fp) ELSE "Raised",
+                         MeasV,
+                         IF R.vmb THEN MeasureWhy(C, H, R.vm, MeasV) ELSE "-">>))
 
 \* the relation itself (not only its diagnostic) is evaluated on every accepted report
 JudgeIsRelation == /\ (R.optb /\ OptV = "ok") => Acceptable(C, H, R.opt)
